@@ -89,7 +89,7 @@ func genDelta(r *Rng, big bool) uint64 {
 
 var oldSelectors = []string{"cur", "zero", "sub", "sub+1", "cur+1", "cur-1", "abs", "max", "2^63"}
 var proofSelectors = []string{"honest", "empty", "honest_old", "trunk", "othersizes", "flip", "drop", "add", "addfront", "dup", "swap", "badlen", "random", "roots", "nil", "prepend_old_root", "append_new_root", "prepend_new_root", "append_old_root", "long", "honest_padded"}
-var sigMutations = []string{"wrongkey", "wrongkey_samename", "forgedhash", "nosig", "badsig", "flipbody", "trunc", "bytes", "otherorigin", "origin_prefix", "origin_bare", "origin_case", "origin_ws", "trailing_nl", "crosslog", "unknownlog"}
+var sigMutations = []string{"wrongkey", "wrongkey_samename", "forgedhash", "nosig", "badsig", "flipbody", "trunc", "bytes", "otherorigin", "origin_prefix", "origin_bare", "origin_case", "origin_ws", "trailing_nl", "crosslog", "unknownlog", "splice_sig"}
 var decorations = []string{"ext", "xsig_unknown", "xsig_unknown_first", "xsig_otherlog", "xsig_dup", "stale_wit", "fake_wit"}
 
 // genUpdate draws one update op for log l with nb branches.
@@ -184,6 +184,13 @@ func genHistory(r *Rng, pf Profile, cfg *Config) []Op {
 			// origin), then the same text and signature bytes relabelled with l's key name and ID and submitted to l
 			d := uint64(r.Range(0, 4))
 			ops = append(ops, Op{K: "update", L: l, D: d, M: "prime_other"}, Op{K: "update", L: l, D: d, M: "forgedhash", MV: 2 * r.Uint64N(1000)})
+			i++
+			continue
+		}
+		if pf.Mutations > 0 && r.Chance(0.04) {
+			// a two-step forgery: an honest checkpoint with extension lines (accepted, so the witness has verified that text and
+			// signature), then the same signature bytes under a text cut short, the cut-off lines moved into the signature
+			ops = append(ops, Op{K: "update", L: l, D: uint64(r.Range(0, 4)), M: "ext", MV: r.Uint64()}, Op{K: "update", L: l, M: "splice_sig", MV: 4 * r.Uint64N(1000)})
 			i++
 			continue
 		}
